@@ -1,10 +1,12 @@
 use crate::Ctx;
 pub mod c14;
+pub mod c16;
 pub mod c20;
 
 pub fn run(ctx: &mut Ctx, suite: &str) {
     match suite {
         "c14" => c14::run(ctx),
+        "c16" => c16::run(ctx),
         "c20" => c20::run(ctx),
         _ => {
             eprintln!("unknown suite {suite}");
@@ -19,6 +21,8 @@ pub fn replay(ctx: &mut Ctx, tag: &str, args: &[&str]) {
         "c14" => c14::case_ops(ctx, args[0], args[1]),
         "c14a" => c14::case_ascii(ctx, args[0], args[1]),
         "c14n" => c14::case_num(ctx, args[0], args[1]),
+        "c16n" => c16::case_new(ctx, args[0]),
+        "c16a" => c16::case_add(ctx, args[0], args[1]),
         "c20e" => c20::case_error(ctx, args[0]),
         "c20s" => c20::case_status(ctx, args[0], args[1]),
         _ => eprintln!("unknown case tag {tag}"),
